@@ -73,6 +73,7 @@ type c16Cfg struct {
 	unreadyOK []string // pods that may become unready
 	touch     bool     // alphabet additionally contains "another writer updates the waiting job" (stale copy => Update conflicts)
 	failRun   bool     // alphabet additionally contains Running -> Failed
+	reready   bool     // alphabet additionally contains "pod becomes ready again"
 	adopted   []string // jobs that are already Running when the arbitrator starts (delivered as Create events by the initial sync)
 	depthQ    int
 	depthT    int
@@ -313,6 +314,7 @@ func c16Spec(pn string) c16PodSpec {
 
 // createJob: a PodMigrationJob appears in the API server and the informer delivers its Create event.
 func (s *c16Sys) createJob(pn string, phase v1alpha1.PodMigrationJobPhase, passed bool) {
+	userLike := phase == ""
 	ps := c16Spec(pn)
 	s.gen[pn]++
 	s.seq++
@@ -328,6 +330,10 @@ func (s *c16Sys) createJob(pn string, phase v1alpha1.PodMigrationJobPhase, passe
 	}
 	if passed {
 		job.Annotations = map[string]string{AnnotationPassedArbitration: "true"}
+	}
+	if userLike {
+		// a hand-written job names the pod but not its UID (the controller fills the UID in when it starts the job)
+		job.Spec.PodRef.UID = ""
 	}
 	if err := s.cl.Create(context.TODO(), job); err != nil {
 		panic(err)
@@ -425,15 +431,17 @@ func c16BuildOps(cfg *c16Cfg) []c16Op {
 				apply: func(s *c16Sys) {
 					ph := v1alpha1.PodMigrationJobPending // what CreatePodMigrationJob writes
 					if strings.HasPrefix(pn, "b") {
-						ph = "" // a user-created job without status
+						ph = "" // a user-created job: no status, no pod UID
 					}
 					s.createJob(pn, ph, false)
 				}},
-			// the migration controller starts a job that passed arbitration
+			// the migration controller starts a job: it reconciles a job on every Update event of the job, i.e. after the
+			// arbitrator annotated it as passed - or after any other writer updated it (the reconciler itself does not look
+			// at the annotation), which is how a limit can be exceeded BEFORE a round
 			c16Op{name: "running(" + pn + ")", pod: pn, kind: "running",
 				enabled: func(s *c16Sys) bool {
 					j := s.liveJob(pn)
-					return j != nil && c16Phase(j) == v1alpha1.PodMigrationJobPending && c16Passed(j)
+					return j != nil && c16Phase(j) == v1alpha1.PodMigrationJobPending && (c16Passed(j) || j.Labels["touched"] != "")
 				},
 				apply: func(s *c16Sys) { s.setPhase(s.liveJob(pn), v1alpha1.PodMigrationJobRunning) }},
 			// the job completes: Running -> Succeeded, passed-but-not-started -> Aborted (timeout path)
@@ -481,26 +489,35 @@ func c16BuildOps(cfg *c16Cfg) []c16Op {
 	for _, pn := range cfg.unreadyOK {
 		pn := pn
 		ps := c16Spec(pn)
+		setReady := func(s *c16Sys, ready bool) {
+			p := &corev1.Pod{}
+			if err := s.cl.Get(context.TODO(), types.NamespacedName{Namespace: ps.ns, Name: ps.name}, p); err != nil {
+				panic(err)
+			}
+			p.Status.Conditions[0].Status = corev1.ConditionFalse
+			if ready {
+				p.Status.Conditions[0].Status = corev1.ConditionTrue
+			}
+			if err := s.cl.Status().Update(context.TODO(), p); err != nil {
+				panic(err)
+			}
+			q := &corev1.Pod{}
+			if err := s.cl.Get(context.TODO(), types.NamespacedName{Namespace: ps.ns, Name: ps.name}, q); err != nil {
+				panic(err)
+			}
+			if c16Ready(q) != ready {
+				panic("c16: pod status update was not stored")
+			}
+			s.podObj[pn] = q
+		}
 		ops = append(ops, c16Op{name: "unready(" + pn + ")", pod: pn, kind: "unready",
 			enabled: func(s *c16Sys) bool { return c16Ready(s.podObj[pn]) },
-			apply: func(s *c16Sys) {
-				p := &corev1.Pod{}
-				if err := s.cl.Get(context.TODO(), types.NamespacedName{Namespace: ps.ns, Name: ps.name}, p); err != nil {
-					panic(err)
-				}
-				p.Status.Conditions[0].Status = corev1.ConditionFalse
-				if err := s.cl.Status().Update(context.TODO(), p); err != nil {
-					panic(err)
-				}
-				q := &corev1.Pod{}
-				if err := s.cl.Get(context.TODO(), types.NamespacedName{Namespace: ps.ns, Name: ps.name}, q); err != nil {
-					panic(err)
-				}
-				if c16Ready(q) {
-					panic("c16: pod status update was not stored")
-				}
-				s.podObj[pn] = q
-			}})
+			apply:   func(s *c16Sys) { setReady(s, false) }})
+		if cfg.reready {
+			ops = append(ops, c16Op{name: "ready(" + pn + ")", pod: pn, kind: "ready",
+				enabled: func(s *c16Sys) bool { return !c16Ready(s.podObj[pn]) },
+				apply:   func(s *c16Sys) { setReady(s, true) }})
+		}
 	}
 	return ops
 }
@@ -764,6 +781,11 @@ func (s *c16Sys) judgeRound(before, after c16Obs) []mc.Violation {
 			}
 		default:
 			// refused (or its update did not go through): must still be waiting, untouched
+			if s.otherReason(p) {
+				// a job that is to be rejected for good but whose status update did not go through: not described by the statement
+				res.Count("diag_non_retryable_rejection_not_recorded", 1)
+				continue
+			}
 			if !ja.waiting || ja.rawPhase != jb.rawPhase || ja.passed != jb.passed {
 				viol = append(viol, s.viol("refused-job-not-waiting",
 					fmt.Sprintf("job %s (pod %s) was neither admitted nor failed by the round but is no longer waiting unchanged: inWaitingCollection=%v phase %q->%q passed %v->%v",
@@ -778,9 +800,6 @@ func (s *c16Sys) judgeRound(before, after c16Obs) []mc.Violation {
 			}
 			if len(lack) == 0 {
 				res.Count("diag_kept_waiting_although_reference_sees_headroom", 1)
-			}
-			if s.otherReason(p) {
-				res.Count("diag_kept_waiting_although_non_headroom_reason", 1)
 			}
 		}
 	}
@@ -946,9 +965,9 @@ func c16Configs(env *mc.Env) []*c16Cfg {
 	}
 	if env.Thorough() {
 		cfgs = append(cfgs,
-			&c16Cfg{name: "all-caps-1", elig: all, perNode: i(1), perNs: i(1), global: i(1), perWl: c16IS("1"), maxUnav: c16IS("1"), unreadyOK: []string{"a3"}, failRun: true, depthT: 8},
+			&c16Cfg{name: "all-caps-1", elig: all, perNode: i(1), perNs: i(1), global: i(1), perWl: c16IS("1"), maxUnav: c16IS("1"), unreadyOK: []string{"a3"}, failRun: true, reready: true, depthT: 8},
 			&c16Cfg{name: "all-caps-2", elig: all, perNode: i(2), perNs: i(2), global: i(2), perWl: c16IS("70%"), maxUnav: c16IS("70%"), unreadyOK: []string{"a3", "b2"}, failRun: true, depthT: 8},
-			&c16Cfg{name: "node2-ns2-unav50pct", elig: all, perNode: i(2), perNs: i(2), perWl: c16IS("70%"), maxUnav: c16IS("50%"), unreadyOK: []string{"a1", "b1"}, depthT: 8},
+			&c16Cfg{name: "node2-ns2-unav50pct", elig: all, perNode: i(2), perNs: i(2), perWl: c16IS("70%"), maxUnav: c16IS("50%"), unreadyOK: []string{"a1", "b1"}, reready: true, depthT: 8},
 			&c16Cfg{name: "global1-unav2-conflict", elig: all, global: i(1), perWl: c16IS("2"), maxUnav: c16IS("2"), touch: true, depthT: 8},
 			&c16Cfg{name: "node1-ns2-wl-unset", elig: all, perNode: i(1), perNs: i(2), maxUnav: c16IS("70%"), unreadyOK: []string{"a2"}, depthT: 8},
 		)
@@ -965,10 +984,13 @@ func TestVerifC16Arb(t *testing.T) {
 		res := mc.NewResult("C16", "arb-"+cfg.name, "bfs")
 		extra := ""
 		if cfg.touch {
-			extra += "; another writer updates a waiting job (the arbitrator's copy goes stale)"
+			extra += "; another writer updates a waiting job (the arbitrator's copy goes stale; the update event makes the migration controller start the job without arbitration)"
 		}
 		if cfg.failRun {
 			extra += "; a Running job fails"
+		}
+		if cfg.reready {
+			extra += "; unready pods become ready again"
 		}
 		if len(cfg.adopted) > 0 {
 			extra += fmt.Sprintf("; initial state: jobs for %v are already Running and were delivered to the arbitrator by the initial sync", cfg.adopted)
